@@ -145,6 +145,10 @@ class AsyncIOClient(ABC):
             return  # CLOSED is final
             
         self._state = new_state
+        if new_state == State.DISCONNECTED:
+            # the moment the link was lost (not every later send that fails while it is down): the reconnect task
+            # makes no attempt within half a second of it
+            self._last_fault = asyncio.get_running_loop().time()
         
         # Call status callback if registered
         if self.status_callback:
@@ -307,7 +311,6 @@ class AsyncIOClient(ABC):
         """
         if self._state == State.CLOSED:
             return  # close() was called from the status callback that reported the fault: nothing to reconnect
-        self._last_fault = asyncio.get_running_loop().time()
         if self._reconnect_task is None or self._reconnect_task.done():
             self._reconnect_task = asyncio.create_task(self._reconnect())
 
